@@ -19,7 +19,8 @@ class C16(CheckDef):
     models = {'quick': [ModelRun('DelayedDestructorMC.tla', 'DD_quick.cfg', workers=16, note='adder/dropper/destroyer + a thread doing anything x 2; with and without callback; destructor / callback re-entering size()'),
                         ModelRun('DelayedDestructorMC.tla', 'DD_quick3.cfg', workers=16, note='3 threads incl. two concurrent destroyObjects, time-outs'),
                         ModelRun('DelayedDestructorMC.tla', 'DD_seq.cfg', note='every one-thread sequence of 5 operations, locked and single-thread class'),
-                        ModelRun('DelayedDestructorMC.tla', 'DD_throw.cfg', workers=16, note='every callback invocation may throw')],
+                        ModelRun('DelayedDestructorMC.tla', 'DD_throw.cfg', workers=16, note='every callback invocation may throw'),
+                        ModelRun('DelayedDestructorMC.tla', 'DD_nest.cfg', workers=16, note='destructor / callback calling destroyObjects() again (one level)')],
               'thorough': [ModelRun('DelayedDestructorMC.tla', c, workers=16, xmx='24g') for c in ('DD_quick.cfg', 'DD_quick3.cfg', 'DD_seq.cfg')] +
                           [ModelRun('DelayedDestructorMC.tla', 'DD_thorough.cfg', workers=16, xmx='28g', timeout=2400, simulate='num=500000', note='3+2+1 operations: simulation')]}
     confs = [conf('DD_conf.cfg'), conf('DD_confst.cfg')]
@@ -33,6 +34,8 @@ class C16(CheckDef):
                   ('%s;%s;%s;%s' % ((A,) * 4), {'cb': 1, 'reenter': 0, 'locked': 0}, 300, 'random'), ('4;4;4;2', {'cb': 1, 'reenter': 0, 'locked': 0, 'rev': 1}, 50, 'random'),
                   ('4;0;4;1;2;2', {'cb': 1, 'reenter': 0, 'locked': 0, 'rev': 1}, 50, 'random'), ('4;2/2;3', {'cb': 0, 'reenter': 1, 'locked': 1}, 4000, 'pb2'),
                   ('0;1/2;2', {'cb': 1, 'reenter': 2, 'locked': 1}, 4000, 'pb2'),
+                  # user code calling destroyObjects() again
+                  ('4;4;2/0;1;2/4;2', {'cb': 1, 'reenter': 4, 'locked': 1}, 400, 'random'), ('4;4;2/0;1;2/4;2', {'cb': 0, 'reenter': 3, 'locked': 1}, 400, 'random'),
                   # a throwing callback: the batch is still destroyed, in this call
                   ('4;4;2;3/0;2;1/2,3', {'cb': 1, 'reenter': 0, 'locked': 1, 'cbthrow': 1}, 400, 'random'),
                   # a thread held inside a callback / destructor: nobody else may have to wait for it
@@ -43,6 +46,8 @@ class C16(CheckDef):
                      ('4;0;4;1;2;2', {'cb': 1, 'reenter': 0, 'locked': 0, 'rev': 1}, 50, 'random'), ('4;2/2;3', {'cb': 0, 'reenter': 1, 'locked': 1}, 300000, 'pb2'),
                      ('0;1/2;2', {'cb': 1, 'reenter': 2, 'locked': 1}, 300000, 'pb2'), ('%s;%s;%s;%s/%s;%s;%s/2;3;2' % ((A,) * 7), {'cb': 1, 'reenter': 1, 'locked': 1}, 15000, 'random'),
                      ('4;4;2;3/0;2;1/2,3', {'cb': 1, 'reenter': 0, 'locked': 1, 'cbthrow': 1}, 10000, 'random'),
+                     ('4;4;2/0;1;2/4;2', {'cb': 1, 'reenter': 4, 'locked': 1}, 10000, 'random'), ('4;4;2/0;1;2/4;2', {'cb': 1, 'reenter': 3, 'locked': 1}, 10000, 'random'),
+                     ('%s;%s;%s/%s;%s/2,3' % ((A,) * 5), {'cb': 1, 'reenter': 4, 'locked': 1}, 10000, 'random'),
                      ('4;4;2/0;3;1/3;4;2', {'cb': 1, 'reenter': 0, 'locked': 1}, 10000, 'stall'), ('4;2/0;3/3;4', {'cb': 0, 'reenter': 0, 'locked': 1}, 8000, 'stall')],
     }
     assumptions = ['bounded object/thread counts; a thread keeps at most one external reference at a time',
